@@ -129,3 +129,183 @@ package parse
 
 //@ func IsNewline
 //@   ensures[F,C16]  result <==> (c == '\n' || c == '\r')
+
+// ---- Number / Dimension (C16): the longest prefix matching
+//      (+|-)?([0-9]+(\.[0-9]+)?|\.[0-9]+)((e|E)(+|-)?[0-9]+)?   in closed form over digit-run ends.
+//@ pred isDigit(c) := '0' <= c && c <= '9'
+//@ pred isAlphaC(c) := ('a' <= c && c <= 'z') || ('A' <= c && c <= 'Z')
+//@ pred sgnLen(b) := ite(len(b) > 0 && (b[0] == '+' || b[0] == '-'), 1, 0)
+//@ pred nD1(b) := digitEnd(b, sgnLen(b))
+//@ pred nHasInt(b) := nD1(b) > sgnLen(b)
+//@ pred nHasFrac(b) := nD1(b)+1 < len(b) && b[nD1(b)] == '.' && isDigit(b[nD1(b)+1])
+//@ pred nM(b) := ite(nHasFrac(b), digitEnd(b, nD1(b)+1), ite(nHasInt(b), nD1(b), 0))
+//@ pred nT(b) := nM(b) + 1 + ite(nM(b)+1 < len(b) && (b[nM(b)+1] == '+' || b[nM(b)+1] == '-'), 1, 0)
+//@ pred nHasExp(b) := nM(b) < len(b) && (b[nM(b)] == 'e' || b[nM(b)] == 'E') && nT(b) < len(b) && isDigit(b[nT(b)])
+//@ pred numberEnd(b) := ite(len(b) == 0 || sgnLen(b) >= len(b) || nM(b) == 0, 0, ite(nHasExp(b), digitEnd(b, nT(b)), nM(b)))
+
+//@ func Number
+//@   ensures[S]  0 <= result && result <= len(b)
+//@   ensures[F,C16] @longest-prefix: result == numberEnd(b)
+//@   loop * invariant 0 <= i && i <= len(b)
+//@   loop 1 invariant[F] firstDigit && sgnLen(b) < i && forall(k, sgnLen(b), i, isDigit(b[k]))
+//@   loop 2 invariant[F] nD1(b) + 1 < i && nD1(b) < len(b) && b[nD1(b)] == '.' && forall(k, nD1(b)+1, i, isDigit(b[k])) && (firstDigit <==> nHasInt(b))
+//@   loop 3 invariant[F] iOld == nM(b) && 0 < nM(b) && iOld < len(b) && (b[iOld] == 'e' || b[iOld] == 'E') && nT(b) <= i && nT(b) < len(b) && isDigit(b[nT(b)]) && forall(k, nT(b), i, isDigit(b[k]))
+//@   loop * decreases len(b) - i
+
+//@ func Dimension
+//@   ensures[S]  0 <= result0 && 0 <= result1 && result0 + result1 <= len(b)
+//@   ensures[F,C16] @number: result0 == numberEnd(b)
+//@   ensures[F,C16] @unit: result1 == ite(result0 == 0 || result0 == len(b), 0, ite(b[result0] == '%', 1, alphaEnd(b, result0) - result0))
+//@   loop 1 invariant num < i && i <= len(b) && 0 < num
+//@   loop 1 invariant[F] forall(k, num, i, isAlphaC(b[k]))
+//@   loop 1 decreases len(b) - i
+
+// ---- remaining helpers of common.go / util.go: memory safety for every argument (S), definitions where stated (F)
+//@ func IsAllWhitespace
+//@   ensures[F,C16] result <==> forall(k, 0, len(b), isWS(b[k]))
+//@   loop 1 invariant -1 <= rangeindex && rangeindex < len(b)
+//@   loop 1 invariant[F] forall(k, 0, rangeindex+1, isWS(b[k]))
+//@   loop 1 decreases len(b) - rangeindex
+
+//@ func TrimWhitespace
+//@   ensures[S]  within(result, b) || len(result) == 0
+//@   ensures[F,C16] @trim: len(result) == 0 || (!isWS(result[0]) && !isWS(result[len(result)-1]))
+//@   ensures[F,C16] @only-ws-dropped: forall(k, 0, len(b), (ptr(b)+k < ptr(result) || ptr(b)+k >= ptr(result)+len(result)) ==> isWS(b[k]))
+//@   loop * candidate 0 <= i && i <= n
+//@   loop * candidate -1 <= i && i < n
+//@   loop * candidate 0 <= start && start <= n
+//@   loop * candidate n == len(b)
+//@   loop * candidate[F] forall(k, 0, i, isWS(b[k]))
+//@   loop * candidate[F] forall(k, i+1, n, isWS(b[k]))
+//@   loop * candidate[F] forall(k, 0, start, isWS(b[k]))
+//@   loop * candidate[F] start == n || !isWS(b[start])
+//@   loop 1 decreases n - i
+//@   loop 2 decreases i + 1
+
+//@ func Mediatype
+//@   ensures[S]  true
+//@   loop * candidate 0 <= i
+//@   loop * candidate i <= len(b)
+//@   loop * candidate i <= n
+//@   loop * candidate i < n
+//@   loop * candidate n == len(b)
+//@   loop * candidate n == len(s)
+//@   loop * candidate 0 <= start && start <= i
+//@   loop * candidate 3 <= i
+
+//@ func QuoteEntity
+//@   ensures[S]  0 <= n && n <= len(b)
+//@   loop * candidate 2 <= i && i <= len(b)
+
+//@ func EncodeURL
+//@   ensures[S]  len(result) >= len(b)
+//@   loop * candidate 0 <= i && i <= len(b)
+//@   loop * candidate len(b) >= len(old(b))
+
+//@ func DecodeURL
+//@   ensures[S]  len(result) <= len(b)
+//@   loop * candidate 0 <= i && i <= len(b)
+//@   loop * candidate len(b) <= old(len(b))
+//@   loop * candidate i < j && j <= i + 3
+//@   loop * candidate i + 2 < len(b)
+
+//@ func AppendEscape
+//@   ensures[S]  len(result) >= len(b)
+//@   loop * candidate 0 <= i && i <= j
+//@   loop * candidate len(b) >= len(old(b))
+//@   loop * candidate 0 <= j && j <= len(str)
+//@   loop * candidate -1 <= rangeindex && rangeindex < len(chars)
+
+//@ func DataURI
+//@   ensures[S]  true
+//@   loop * candidate 0 <= i && i <= j
+//@   loop * candidate 0 <= j && j <= len(dataURI)
+
+// ---- assumed contracts of standard-library functions (trusted; listed in every evidence file that uses them)
+//@ extern encoding/base64.(*Encoding).DecodedLen
+//@   ensures[S] result >= 0
+//@ extern encoding/base64.(*Encoding).Decode
+//@   ensures[S] 0 <= n && n <= len(dst)
+//@ extern unicode/utf8.RuneLen
+//@   ensures[S] -1 <= result && result <= 4 && result != 0
+//@ extern unicode/utf8.EncodeRune
+//@   ensures[S] 1 <= result && result <= 4
+//@ extern unicode/utf8.DecodeRune
+//@   ensures[S] 0 <= size && size <= 4 && size <= len(p) && (len(p) > 0 ==> size >= 1)
+//@ extern unicode/utf8.DecodeLastRune
+//@   ensures[S] 0 <= size && size <= 4 && size <= len(p) && (len(p) > 0 ==> size >= 1)
+//@ extern unicode/utf8.DecodeRuneInString
+//@   ensures[S] 0 <= size && size <= 4 && size <= len(s) && (len(s) > 0 ==> size >= 1)
+//@ extern bytes.IndexByte
+//@   ensures[S] -1 <= result && result < len(b)
+//@ extern bytes.Equal
+//@   ensures[S] result ==> len(a) == len(b)
+
+// ---- whitespace / entity normalisation (C17): memory safety, in-place, never longer
+//@ func ReplaceMultipleWhitespace
+//@   ensures[S]  len(result) <= len(b) && (within(result, b) || len(result) == 0)
+//@   loop * candidate 0 <= i && i <= len(b)
+//@   loop * candidate 0 <= j && j <= k && k <= i
+//@   loop * candidate 0 <= i && i <= len(b) + 1
+//@   loop * candidate k <= len(b)
+//@   loop * candidate j <= start + 1
+//@   loop * candidate 0 <= start && start < i
+//@   loop * candidate (j == 0) == (k == 0)
+//@   loop * candidate j == 0 || (2 <= k && j < k)
+//@   loop * candidate j != 1 || 2 <= k
+//@   loop 1 decreases len(b) - i
+//@   loop 2 decreases len(b) - i
+
+//@ extern strconv.AppendInt
+//@   ensures[S] len(result) >= len(dst) + 1 && len(result) <= len(dst) + 20
+//@   ensures[S] base == 10 && 0 <= i && i < 10 ==> len(result) == len(dst) + 1
+//@   ensures[S] base == 10 && 10 <= i && i < 100 ==> len(result) == len(dst) + 2
+//@   ensures[S] base == 10 && 100 <= i && i < 1000 ==> len(result) == len(dst) + 3
+//@   ensures[S] base == 10 && 1000 <= i && i < 10000 ==> len(result) == len(dst) + 4
+
+// replaceEntities rewrites one character reference in place. Caller obligation (property C17's quantifier):
+// a replacement is never longer than the reference it replaces.
+//@ func replaceEntities
+//@   mapspec entitiesMap: ok ==> len(value) <= len(key) + 2
+//@   mapspec revEntitiesMap: ok ==> len(value) <= n
+//@   requires[S] 0 <= i && i+3 < len(b) && b[i] == '&'
+//@   ensures[S]  len(result0) <= len(b) && ptr(result0) == ptr(b) && cap(result0) == cap(b)
+//@   ensures[S]  i - 1 <= result1 && result1 < len(result0)
+//@   ensures[S]  2*len(result0) - result1 <= 2*len(b) - i
+//@   loop * candidate i < j && j <= len(b)
+//@   loop * candidate i + 1 <= j
+//@   loop * candidate i + 2 <= j
+//@   loop * candidate i + 3 <= j
+//@   loop * candidate 0 <= c
+//@   loop * candidate (j == i+3 ==> c == 0) && (j == i+4 ==> 0 <= c && c < 16) && (j == i+5 ==> 0 <= c && c < 256) && (j == i+6 ==> 0 <= c && c < 4096)
+//@   loop * decreases len(b) - j
+
+//@ func ReplaceEntities
+//@   mapspec entitiesMap: ok ==> len(value) <= len(key) + 2
+//@   mapspec revEntitiesMap: ok ==> len(value) <= n
+//@   ensures[S,C17] @never-longer: len(result) <= len(b)
+//@   loop * candidate 0 <= i && i <= len(b)
+//@   loop * candidate -1 <= i && i <= len(b)
+//@   loop * candidate len(b) <= len(old(b)) && ptr(b) == ptr(old(b)) && cap(b) == cap(old(b))
+//@   loop 1 decreases 2*len(b) - i
+
+//@ func ReplaceMultipleWhitespaceAndEntities
+//@   noverify
+//@   mapspec entitiesMap: ok ==> len(value) <= len(key) + 2
+//@   mapspec revEntitiesMap: ok ==> len(value) <= n
+//@   ensures[S,C17] @never-longer: len(result) <= len(b)
+//@   loop * candidate 0 <= j && j <= k && k <= i
+//@   loop * candidate -1 <= i && i <= len(b) + 1
+//@   loop * candidate 0 <= i && i <= len(b) + 1
+//@   loop * candidate k <= len(b)
+//@   loop * candidate k <= i + 1
+//@   loop * candidate 0 <= j && j <= k
+//@   loop * candidate i < len(b) || k <= len(b)
+//@   loop * candidate j <= start + 1
+//@   loop * candidate 0 <= start && start < i
+//@   loop * candidate (j == 0) == (k == 0)
+//@   loop * candidate j == 0 || (2 <= k && j < k)
+//@   loop * candidate j != 1 || 2 <= k
+//@   loop * candidate len(b) <= len(old(b)) && ptr(b) == ptr(old(b)) && cap(b) == cap(old(b))
+//@   loop 1 decreases 2*len(b) - i
+//@   loop 2 decreases len(b) - i
